@@ -646,6 +646,11 @@ impl<'a> Model<'a> {
                 // If the range under study is in the middle we augment it
                 col.max = max + column_count;
             }
+            // what is pushed past the last column is gone
+            if col.min > LAST_COLUMN {
+                continue;
+            }
+            col.max = col.max.min(LAST_COLUMN);
             new_columns.push(col.clone());
         }
         // TODO: If in a row the cell to the right and left have the same style we should copy it
@@ -971,7 +976,8 @@ impl<'a> Model<'a> {
         for r in rows {
             if r.r < row {
                 new_rows.push(r.clone());
-            } else if r.r >= row {
+            } else if r.r >= row && r.r + row_count <= LAST_ROW {
+                // (a row descriptor pushed past the last row is gone)
                 let mut new_row = r.clone();
                 new_row.r = r.r + row_count;
                 new_rows.push(new_row);
